@@ -162,10 +162,11 @@ func init() {
 		"bad": wxJunk("str", "yesterday"), "dateonly": wxJunk("str", "2024-02-29"),
 	}
 	wireAtoms["date"] = map[string]*wAtom{
-		"d0001": wxDa(1, 1, 1, "0001-01-01", true), "d0999": wxDa(999, 12, 31, "0999-12-31", true), "leap": wxDa(2024, 2, 29, "2024-02-29", true), "d9999": wxDa(9999, 12, 31, "9999-12-31", true),
+		"d0001": wxDa(1, 1, 1, "0001-01-01", true), "d0999": wxDa(999, 12, 31, "0999-12-31", true), "leap": wxDa(2024, 2, 29, "2024-02-29", true), "leap400": wxDa(2000, 2, 29, "2000-02-29", true), "d9999": wxDa(9999, 12, 31, "9999-12-31", true),
 		// C08 well-formedness only (outside the representable range)
 		"y0": wxDa(0, 0, 0, "0000-00-00", false), "y10000": wxDa(10000, 1, 1, "10000-01-01", false),
-		"bad": wxJunk("str", "hello"), "badcal": wxJunk("str", "2024-02-30"), "badparts": wxJunk("str", "2024-02"),
+		"bad": wxJunk("str", "hello"), "badcal": wxJunk("str", "2024-02-30"), "badleap100": wxJunk("str", "2100-02-29"), "badleap": wxJunk("str", "2023-02-29"),
+		"badmonth": wxJunk("str", "2024-13-01"), "badday0": wxJunk("str", "2024-06-00"), "badparts": wxJunk("str", "2024-02"),
 	}
 	wireAtoms["decimal"] = map[string]*wAtom{
 		"zero": wxDca("0"), "neg": wxDca("-1.50"), "big": wxDca("123456789012345678901234567890.5"), "small": wxDca("0.000001"), "exp": wxDca("1e3"), "int": wxDca("42"),
